@@ -197,7 +197,7 @@ func genURIList(t *rapid.T, min, max int) []interface{} {
 	return out
 }
 
-var otherMemberNames = []string{"name", "test", "x", "publicKeyX", "service2", "publi", "servic", "extra_1", "@meta", "Service", "o", "p", "arr"}
+var otherMemberNames = []string{"name", "test", "x", "publicKeyX", "service2", "publi", "servic", "extra_1", "@meta", "Service", "o", "p", "arr", "a/b", "m~n", "x~1y", "x/y", "", "0"}
 
 // genOtherMembers draws "other" top-level members with ordinary names (no JSON-pointer or quoting metacharacters).
 func genOtherMembers(t *rapid.T, max int) map[string]interface{} {
@@ -833,3 +833,5 @@ func ptrGetS(doc interface{}, p string) (interface{}, error) {
 func touchesProtected(p string) bool {
 	return p == "" || strings.HasPrefix(p, "/publicKey") || strings.HasPrefix(p, "/service")
 }
+
+func b58encode(b []byte) string { return base58.Encode(b) }
